@@ -45,7 +45,8 @@ package chain
 //      "ghost_before": k (validate mode only, k = block number, 1-based; 0/absent = none),
 //      "blocks": [ {"ts": 1000, "txs": [TX, ...]}, ... ]}
 //     TX = {"from": <acct idx>, "nonce": <uint>, "kind": "transfer"|"stake"|"unstake"|"votebp"|
-//           "votedao"|"namecreate"|"nameupdate"|"raw",
+//           "votedao"|"namecreate"|"nameupdate"|"raw"|"deploy"|"call" (deploy/call: "payload" is the
+//           VM script, see determVM; call: "ctr":[deployer index, deploy nonce]),
 //           "to": <acct idx> | "aergo.system" | "aergo.name" | "<any string, used as raw recipient
 //                 bytes, e.g. a registered 12-char name>"   (transfer / raw),
 //           "amt": "<decimal aer>" (default "0"),
@@ -157,6 +158,7 @@ type determTx struct {
 	Val      []string        `json:"val"`
 	Name     string          `json:"name"`
 	Dest     int             `json:"dest"`
+	Ctr      []int           `json:"ctr"` // call: contract created by the DEPLOY of account Ctr[0] with nonce Ctr[1]
 	Payload  *string         `json:"payload"`
 	Type     *int32          `json:"type"`
 	FromName string          `json:"from_name"`
@@ -461,9 +463,7 @@ func newDetermNode(c *determCase) *determNode {
 	if err := system.InitVotingPowerRank(scs); err != nil {
 		panic(err)
 	}
-	contract.StubVM = func(kind string, cs *statedb.ContractState, payload, id []byte) (string, []*types.Event, string, *big.Int, error) {
-		return "", nil, "", new(big.Int), fmt.Errorf("verif: no VM")
-	}
+	contract.StubVM = determVM
 
 	seen := map[string]bool{}
 	for _, b := range c.Blocks {
@@ -544,6 +544,15 @@ func (n *determNode) buildTx(t *determTx, cidHash []byte) (*types.Tx, error) {
 		}
 		body.Type = types.TxType_TRANSFER
 		body.Recipient = r
+	case "deploy":
+		body.Type = types.TxType_DEPLOY
+		body.Recipient = nil
+	case "call":
+		if len(t.Ctr) != 2 || t.Ctr[0] < 0 || t.Ctr[0] >= len(n.accts) {
+			return nil, fmt.Errorf("bad ctr %v", t.Ctr)
+		}
+		body.Type = types.TxType_CALL
+		body.Recipient = contract.CreateContractID(n.accts[t.Ctr[0]].addr, uint64(t.Ctr[1]))
 	case "stake":
 		gov(types.AergoSystem, `{"Name":"v1stake"}`)
 	case "unstake":
@@ -586,6 +595,52 @@ func (n *determNode) buildTx(t *determTx, cidHash []byte) (*types.Tx, error) {
 		return nil, err
 	}
 	return tx, nil
+}
+
+// determVM is the scripted contract VM (contract.StubVM of the overlay stub): the payload of a
+// DEPLOY / CALL transaction is "<verdict>|<fee>|<key>=<value>|<event>" (trailing fields optional):
+//
+//	ok       success: stores the code (create) / writes key=value into the contract storage, emits the event
+//	rt       runtime error after consuming <fee>   (vmError: receipt ERROR, fee + nonce charged, tx included)
+//	vmstart  VM system error contract.ErrVmStart after consuming <fee>   (non-runtime: producer drops the tx)
+//	timeout  *contract.VmTimeoutError after consuming <fee>             (non-runtime: producer ends the block)
+//
+// It is a pure function of (kind, payload): producer and validator script the same behaviour.
+func determVM(kind string, cs *statedb.ContractState, payload, id []byte) (string, []*types.Event, string, *big.Int, error) {
+	f := strings.Split(string(payload), "|")
+	get := func(i int) string {
+		if i < len(f) {
+			return f[i]
+		}
+		return ""
+	}
+	vmFee := new(big.Int)
+	if v, ok := new(big.Int).SetString(get(1), 10); ok {
+		vmFee = v
+	}
+	switch get(0) {
+	case "rt":
+		return "", nil, "", vmFee, fmt.Errorf("verif: scripted runtime error")
+	case "vmstart":
+		return "", nil, "", vmFee, contract.ErrVmStart
+	case "timeout":
+		return "", nil, "", vmFee, &contract.VmTimeoutError{}
+	}
+	if kind == "create" {
+		if err := cs.SetCode(nil, payload); err != nil {
+			return "", nil, "", vmFee, err
+		}
+	}
+	if kv := strings.SplitN(get(2), "=", 2); len(kv) == 2 {
+		if err := cs.SetData([]byte(kv[0]), []byte(kv[1])); err != nil {
+			return "", nil, "", vmFee, err
+		}
+	}
+	var events []*types.Event
+	if ev := get(3); ev != "" {
+		events = append(events, &types.Event{ContractAddress: id, EventIdx: 0, EventName: ev, JsonArgs: "[" + strconv.Quote(get(2)) + "]"})
+	}
+	return strconv.Quote(get(0) + ":" + get(2)), events, "", vmFee, nil
 }
 
 // ---------------------------------------------------------------- producer path
